@@ -578,7 +578,10 @@ def to_yaml(sp, order=None, name='gen'):
     import ruamel.yaml as yaml
     from io import StringIO
     out = StringIO()
-    yaml.YAML(typ='safe', pure=True).dump(to_dict(sp, order, name), out)
+    y = yaml.YAML(typ='safe', pure=True)
+    y.default_flow_style = False      # block style only: the harness' own documents must be unambiguous
+    y.width = 4096
+    y.dump(to_dict(sp, order, name), out)
     return out.getvalue()
 
 
